@@ -175,6 +175,7 @@ def run(prog, R):
     import C07
     C07.return_type_scope(prog, R, "C09.4-return-type-scope")
     R.premises(prog, "C09.2-designator-lookup-premise", ["C19:C19.3-"], "an identifier used as a width or length is resolved by SymbolTable::lookup: the innermost visible binding (a shadowing const of another value must win)")
+    R.premises(prog, "C09.0-binding-premise", ["C19:C19.4-"], "a declaration is recorded with its written type only if binding it succeeds: SymbolTable::new_binding refuses a name exactly when the current scope already has it (a parameter, loop variable or local that merely shadows a visible outer name -- a gate of the standard library, say -- is bound)")
     R.premises(prog, "C09.5-scope-premise", ["C07:C07.1-", "C07:C07.2-", "C07:C07.3-"], "every declaration records its written type in the scope it is written in: each body (then / else / loop / case / default / gate / def) is translated in a scope of its own")
     R.premises(prog, "C09.2-literal-value-premise", ["C10:C10.2-", "C10:C10.3-", "C10:C10.4-digit-string"],
                "a literal width / register length reaches the symbol table through IntNumber::value(): its radix, digit string and sibling agreement are C10's obligations")
@@ -354,6 +355,19 @@ def run(prog, R):
         psg = [p for p in SymExec(prog, sg).paths() if "__diverged__" not in p.env]
         straight = len(psg) == 1 and not any(c[0] == "switch" for c in psg[0].conds) and "flat_map" in show(deep_strip(psg[0].env.get(0))) and "collect" in show(deep_strip(psg[0].env.get(0)))
         allbind = cl is not None and all(any(c[0].endswith("SymbolTable::new_binding") for c in p.calls) for p in SymExec(prog, cl).paths() if "__diverged__" not in p.env)
+        # ... and the binding closure is applied to every name of a group: the adaptor it is handed to visits all items
+        # and the chain is exhausted (a short-circuiting consumer such as find/any/all/position/take_while stops at the
+        # first name whose test is true, i.e. at the first name that is already bound, and skips the rest of the group)
+        shortc = None
+        if cl is not None and oc:
+            SHORT = ("find", "find_map", "any", "all", "position", "rposition", "take_while", "skip_while", "map_while", "try_for_each", "try_fold", "next", "nth", "take", "min_by", "max_by", "is_sorted_by")
+            handed_to = []
+            for _, t_ in oc.calls():
+                if (cl.npath in json.dumps(t_.get("rargs", ""))) or any(cl.npath.split("::")[-2] + "::" + cl.npath.split("::")[-1] in str(a_) for a_ in t_.get("args", [])):
+                    handed_to.append((oc.callee_of(t_) or "?").split("::")[-1])
+            allc = [(oc.callee_of(t_) or "?").split("::")[-1] for _, t_ in oc.calls()]
+            shortc = [c_ for c_ in allc if c_ in SHORT]
+            allbind = allbind and not shortc
         if cl is None:
             # the same table walked by two nested `for` loops instead of flat_map/filter: every name taken from the inner
             # iterator is bound before the next one is taken, with Type::Gate(arity[0], arity[1])
@@ -385,7 +399,7 @@ def run(prog, R):
             R.ob("C09.4-stdgates", "bound as Type::Gate(n_cl, n_qu)", okty and nb_ >= 1, sg.at, f"loop form: {nb_} binding call(s) on {len(pl_)} paths; type {sorted(tys_)[:1]}")
             straight, allbind = okseq, okseq
         R.ob("C09.4-stdgates", "every gate of the table is bound on every call (no conditional skip)", straight and allbind, sg.at,
-             f"{len(psg)} returning path(s) of standard_library_gates, conditions on them: {sum(1 for p in psg for c in p.conds if c[0] == 'switch')}; filter closure binds on every path: {allbind}")
+             f"{len(psg)} returning path(s) of standard_library_gates, conditions on them: {sum(1 for p in psg for c in p.conds if c[0] == 'switch')}; filter closure binds on every path and is applied to every name: {allbind}" + (f"; short-circuiting iterator call(s) {shortc} in the per-group closure: binding stops at the first name whose test succeeds" if shortc else ""))
     gc = prog.body("oq3_semantics::symbols::SymbolTable::gates::{closure#0}")
     if gc:
         ps = [p for p in SymExec(prog, gc).paths() if "__diverged__" not in p.env]
